@@ -402,3 +402,30 @@ func H_sameID(v int) {
 	verifAssert(err == nil, "C11: render with the identity catalogue failed")
 	verifAssert(got == plain, "C11: identity catalogue does not render the source text (messages sharing an id)")
 }
+
+// H_distinctIDs: two messages of one template whose texts have the same length n and differ in
+// their last character only (n runs over the block sizes of the fingerprint); under the identity
+// catalogue, keyed by message id, each renders its own text.
+func H_distinctIDs(n int) {
+	pad := ""
+	for i := 0; i+1 < n; i++ {
+		pad += string(rune('a' + i%26))
+	}
+	src := "{namespace n}\n" + c11Doc + "{template .t}\n{msg desc=\"d\"}" + pad + "X{/msg}|{msg desc=\"e\"}" + pad + "Y{/msg}|{msg desc=\"f\"}{$b}" + pad + "{/msg}|{$n}{$l}{$a.x}{$b}{$c.x}{$x_1}\n{/template}\n"
+	reg, tofu := c11Registry(src)
+	dm := c11Data()
+	plain, perr := c11Render(tofu, "n.t", dm, nil)
+	verifAssert(perr == nil, "harness: render without catalogue failed")
+	var msgs []*ast.MsgNode
+	for _, t := range reg.Templates {
+		c11FindMsgs(t.Node, &msgs)
+	}
+	b := &bundle{messages: map[uint64]soymsg.Message{}, locale: "xx", pluralize: func(n int) int { return 0 }}
+	for _, node := range msgs {
+		b.messages[node.ID] = newMessage(node.ID, "", []string{Msgid(node)})
+	}
+	verifAssert(len(b.messages) == len(msgs), "C11: two different messages share one id (their catalogue entries overwrite each other)")
+	got, err := c11Render(tofu, "n.t", dm, b)
+	verifAssert(err == nil, "C11: render with the identity catalogue failed")
+	verifAssert(got == plain, "C11: identity catalogue does not render the source text")
+}
